@@ -4,3 +4,14 @@ cd "$(dirname "$0")/.."
 for p in $(python3 -c "import json;print(' '.join(c['property_id'] for c in json.load(open('MANIFEST.json'))['checks']))") "$@"; do
   ./bin/govc check $p --write-baseline 2>&1 | grep "baseline:\|unclaimed" | cut -c1-220
 done
+# report claims (ensures/mints/burns/lemma/commutes/callers/scans) that the committed baseline had and the new one lacks
+python3 - <<'PY'
+import json,subprocess
+try:
+    old=json.loads(subprocess.check_output(["git","show","HEAD:baseline/obligations.json"],text=True))["claimed"]
+except Exception: old={}
+new=json.load(open("baseline/obligations.json"))["claimed"]
+for p in sorted(old):
+    lost=[x for x in set(old[p])-set(new.get(p,[])) if "/cover:" not in x and "/call:" not in x and "/frame" not in x and "/rowinv:" not in x]
+    for x in sorted(lost): print("LOST-CLAIM",p,x)
+PY
